@@ -78,6 +78,14 @@ def cases(rng, tier):
 			b'GET / HTTP/' + b'9' * 5000 + b'.1\r\nHost: h\r\n\r\n', b'GET / HTTP/1.1\r\nHost: h:' + b'9' * 5000 + b'\r\n\r\n', b'POST / HTTP/1.1\r\nHost: h\r\nContent-Length: ' + b'9' * 5000 + b'\r\n\r\n',
 			b'POST / HTTP/1.1\r\nHost: h\r\nTransfer-Encoding: chunked\r\n\r\n' + b'f' * 5000 + b'\r\nab'):
 		yield ('s', 'server', t, ((), tuple(range(1, min(len(t), 200)))))
+	# a bare LF (or a lost CRLF) inside chunked framing of a CRLF message, cut right behind it and fed octet by octet
+	head = b'POST / HTTP/1.1\r\nHost: h\r\nTransfer-Encoding: chunked\r\n\r\n'
+	for tail in (b'5\nhello\r\n0\r\n\r\n', b'5\r\nhello\n0\r\n\r\n', b'5\r\nhello\r\n0\n\r\n', b'5\r\nhel\nlo\r\n0\r\n\r\n', b'5\r\nhello0\n', b'5\n', b'\n', b'5;x\ny', b'0\n\n', b'5\r\nhello\r\n0\r\nX: y\n\n'):
+		t = head + tail
+		cuts = [(), tuple(range(1, len(t)))] + [(len(head) + i,) for i in range(1, len(tail))]
+		yield ('s', 'server', t, tuple(cuts))
+		t2 = b'HTTP/1.1 200 OK\r\nTransfer-Encoding: chunked\r\n\r\n' + tail
+		yield ('s', 'client', t2, ((), tuple(range(1, len(t2)))))
 	# bracketed hosts of every sort in the target and in the Host field: address literals, IPvFuture with odd versions, look-alikes
 	for h in (b'[vx.y]', b'[v.addr]', b'[v1_0.a]', b'[vzz.1]', b'[vhost.example.com]', b'[vF.a]', b'[v1.fe:DC]', b'[V1.a]', b'[v\xb2.a]', b'[v1.]', b'[v.]', b'[v-1.a]', b'[v+1.a]', b'[v 1.a]', b'[v1a.b]',
 			b'[v0x1.a]', b'[::1]', b'[::g]', b'[1.2.3.4]', b'[]', b'[', b']', b'[::1%25eth0]', b'[' + b'1:' * 40 + b']', b'[v' + b'9' * 5000 + b'.a]'):
